@@ -102,17 +102,19 @@ func newFakeFiler() *fakeFiler {
 	go gs.Serve(gl)
 	f.grpcAddr = gl.Addr().String()
 	hs := httptest.NewServer(http.HandlerFunc(func(w http.ResponseWriter, r *http.Request) {
+		f.record("http:" + r.Method)
 		buf := make([]byte, 4096)
 		for {
 			if _, e := r.Body.Read(buf); e != nil {
 				break
 			}
 		}
-		f.record("http:" + r.Method)
 		w.Header().Set("Content-Type", "application/json")
 		w.WriteHeader(200)
 		w.Write([]byte("{}"))
 	}))
+	// one connection per request: the gateway's shared http.Client must never race with an idle connection being closed
+	hs.Config.SetKeepAlivesEnabled(false)
 	f.httpAddr = strings.TrimPrefix(hs.URL, "http://")
 	return f
 }
@@ -125,6 +127,13 @@ type fakeFilerSvc struct {
 
 func (s *fakeFilerSvc) LookupDirectoryEntry(ctx context.Context, req *filer_pb.LookupDirectoryEntryRequest) (*filer_pb.LookupDirectoryEntryResponse, error) {
 	return &filer_pb.LookupDirectoryEntryResponse{Entry: &filer_pb.Entry{Name: req.Name, IsDirectory: true, Attributes: &filer_pb.FuseAttributes{}}}, nil
+}
+
+// SubscribeMetadata: the gateways' background subscription is held open (an error here would make every gateway
+// redial the shared cached gRPC connection once a second, racing with the requests under test).
+func (s *fakeFilerSvc) SubscribeMetadata(req *filer_pb.SubscribeMetadataRequest, stream filer_pb.SeaweedFiler_SubscribeMetadataServer) error {
+	<-stream.Context().Done()
+	return nil
 }
 
 // ---------------------------------------------------------------- configurations
@@ -717,9 +726,12 @@ func srcDir() string {
 	return filepath.Dir(file)
 }
 
+var facts *c26ast.Facts
+
 func emitFacts(s *server) {
 	F, err := c26ast.Load(srcDir())
 	must(err)
+	facts = F
 	d := func(x string) string {
 		if x == "" {
 			return "-"
@@ -844,6 +856,53 @@ func shapes(b string) []routeShape {
 	}
 }
 
+// shapesFromSource: one request shape per route statement of the REGENERATED table (so a route added to
+// registerRouter is exercised without touching this harness), merged with the hand-written shapes.
+func allShapes(b string) []routeShape {
+	out := shapes(b)
+	seen := map[routeShape]bool{}
+	for _, s := range out {
+		seen[s] = true
+	}
+	if facts == nil {
+		return out
+	}
+	for _, r := range facts.Routes {
+		sh := routeShape{method: strings.Split(r.Method, ",")[0], path: "/" + b, copysrc: "none", ctype: "none"}
+		switch r.Path {
+		case "/":
+			sh.path = "/"
+		case "":
+		default:
+			sh.path = "/" + b + "/dir/obj"
+		}
+		var qs []string
+		for _, q := range r.Queries {
+			kv := strings.SplitN(q, "=", 2)
+			v := kv[1]
+			switch {
+			case strings.Contains(v, "[0-9]"):
+				v = "1"
+			case strings.HasPrefix(v, "{"):
+				v = "u1"
+			}
+			qs = append(qs, kv[0]+"="+v)
+		}
+		sh.query = strings.Join(qs, "&")
+		switch r.HdrKey {
+		case "X-Amz-Copy-Source":
+			sh.copysrc = "ok"
+		case "Content-Type":
+			sh.ctype = "multipart"
+		}
+		if !seen[sh] {
+			seen[sh] = true
+			out = append(out, sh)
+		}
+	}
+	return out
+}
+
 type credChoice struct{ ak, sk string }
 
 func generate(a *hx.Args, rng *hx.Rng) {
@@ -880,7 +939,7 @@ func generate(a *hx.Args, rng *hx.Rng) {
 		}
 		// systematic part: every shape x style x (a few credentials) with the sha header off / streaming
 		for bi, b := range buckets {
-			for si, sh := range shapes(b) {
+			for si, sh := range allShapes(b) {
 				for _, style := range styles {
 					for _, sha := range []string{"none", "streaming"} {
 						signed := style == "v4h" || style == "v4p" || style == "v2h" || style == "v2p"
@@ -925,7 +984,7 @@ func generate(a *hx.Args, rng *hx.Rng) {
 		// random part
 		for i := 0; i < a.N(300); i++ {
 			b := buckets[rng.Intn(len(buckets))]
-			shs := shapes(b)
+			shs := allShapes(b)
 			sh := shs[rng.Intn(len(shs))]
 			if rng.Chance(1, 4) {
 				sh.ctype = rng.Pick([]string{"none", "multipart", "formdat", "xml"})
